@@ -2909,7 +2909,7 @@ where
                     footnote.total_references += 1;
                     nfr.ref_num = footnote.total_references;
                     nfr.ix = ix;
-                    nfr.name = strings::normalize_label(&footnote.name, Case::Preserve);
+                    nfr.name = footnote.name.clone();
                 } else {
                     replace = Some(nfr.name.clone());
                 }
